@@ -318,6 +318,7 @@ func (wf *Workflow) runProcs(procs map[string]WorkflowProcess) {
 	}
 
 	vhook("run.start")
+	procsDone := &sync.WaitGroup{}
 	for _, proc := range procs {
 		if proc == wf.driver {
 			// The driver process is run in the main go-routine below, and
@@ -325,7 +326,11 @@ func (wf *Workflow) runProcs(procs map[string]WorkflowProcess) {
 			continue
 		}
 		Debug.Printf(wf.name+": Starting process (%s) in new go-routine", proc.Name())
-		go proc.Run()
+		procsDone.Add(1)
+		go func(proc WorkflowProcess) {
+			defer procsDone.Done()
+			proc.Run()
+		}(proc)
 	}
 
 	Debug.Printf("%s: Starting driver process (%s) in main go-routine", wf.name, wf.driver.Name())
@@ -344,6 +349,11 @@ func (wf *Workflow) runProcs(procs map[string]WorkflowProcess) {
 		wf.driver.Run()
 		<-sinkDone
 	}
+	// The driver only waits for the out-ports connected to it. A process
+	// whose results a downstream process has stopped reading (because another
+	// in-port of that process was closed earlier) might still be executing
+	// tasks, so wait for all started processes
+	procsDone.Wait()
 	vhook("run.return")
 	wf.Auditf("Finished workflow (Log written to %s)", wf.logFile)
 }
